@@ -93,7 +93,7 @@ def check(run) -> None:
         rest = [p for p in clean if len(cases_of[p["id"]]["ops"]) > 1]
         clean = short + rnd.sample(rest, min(len(rest), 240 - len(short)))
     ev = lang.spec_eval(clean + [p for ps in PROBES.values() for p in ps], run, "live data per pass")
-    lv = {pid: v["lv"] for pid, v in ev.items()}
+    lv = live_data(ev)
     res = run_progs(run, clean, lv)
     counts: dict = {}
     for p in clean:
@@ -132,10 +132,22 @@ def check(run) -> None:
     run.cov["probe_stratum_candidates"] = {k: len(v) for k, v in st.probe.items()}
 
 
+def live_data(ev: dict) -> dict:
+    """Live Python data per pass, as the pass-leak law needs it."""
+    lv = {pid: v["lv"] for pid, v in ev.items()}
+    for pid, v in ev.items():
+        if "list-alias-mutation" in v["feat"]:
+            # Python mutates ONE list through two names, the firmware two copies: the amount of live Python data says nothing
+            # about the firmware's heap, so the pass-leak law (equal Python data => equal heap) is given a premise that never
+            # holds; ownership, double frees and sanitizer reports are still judged
+            lv[pid] = list(range(len(v["lv"])))
+    return lv
+
+
 def replay(path: str) -> int:
     r = json.load(open(path))
     p = r["program"]
-    lv = {p["id"]: lang.spec_eval([p])[p["id"]]["lv"]}
+    lv = live_data(lang.spec_eval([p]))
     from harness.result import Run
     res = run_progs(Run("C09", "quick", 1), [p], lv)[p["id"]]
     print(json.dumps({"status": res["status"], "verdict": res.get("verdict")}))
